@@ -16,7 +16,50 @@ from harness.common import NCPU
 from harness.observe import InjectedFault, Observer, finalize
 
 
+class Scripted:
+    """Scripted objective (DESIGN 3.1 C): the k-th NEW point at which the solver asks for a value or a
+    gradient gets the k-th letter (value, slope factor) of the script; values are memoised by the bytes
+    of x, so this is a function of x (any finite set of values/gradients at distinct points is the
+    restriction of a smooth function).  After the script: a benign tail (lower value, flat slope)."""
+
+    def __init__(self, script, n, g0=None):
+        self.script = [tuple(l) for l in script]
+        self.memo = {}
+        self.g0 = np.array(g0 if g0 is not None else [1.0, -2.0, 0.5, 1.5][:n], float)
+        self.k = 0
+        self.tail = 0
+
+    def _at(self, x):
+        key = np.ascontiguousarray(np.asarray(x, float)).tobytes()
+        v = self.memo.get(key)
+        if v is None:
+            if not self.memo:
+                v = (10.0, 1.0)                       # the start point
+            elif self.k < len(self.script):
+                v = self.script[self.k]
+                self.k += 1
+            else:
+                self.tail += 1
+                v = (3.0 - 0.25 * self.tail, 0.05)    # strictly lower, almost flat: accepted at once
+            self.memo[key] = v
+        return v
+
+    def fun(self, x):
+        return float(self._at(x)[0])
+
+    def grad(self, x):
+        return self._at(x)[1] * self.g0
+
+
 def make_problem(spec):
+    if spec["family"] == "scripted":
+        n = spec["n"]
+        sc = Scripted(spec["script"], n)
+        if spec.get("nobox"):
+            lb, ub = np.full(n, -np.inf), np.full(n, np.inf)
+        else:
+            lb, ub = np.full(n, -50.0), np.full(n, 50.0)
+        return problems.Problem("scripted", n, sc.fun, sc.grad, lb, ub, np.zeros(n), False, {"script": spec["script"]})
     rng = np.random.default_rng([spec["pseed"], 7])
     p = problems.gen(rng, spec["family"], spec["n"], box_kinds=spec.get("box_kinds"),
                      start=spec.get("start"), cond=spec.get("cond"))
@@ -138,6 +181,32 @@ def run_all(specs, procs=None):
 
 
 # ----------------------------------------------------------------------- spec generators
+VALUES = [4.0, 8.0, 10.0, 12.0, 15.0]      # the start value is 10.0
+SLOPES = [1.0, 0.05, -0.5]                  # still steeply descending / almost flat / ascending
+
+
+def scripted_specs(rng, exhaustive_len=2, n_random=200, maxls_set=(1, 2, 3, 4, 20)):
+    """Scripts over the alphabet VALUES x SLOPES: exhaustive up to a length, random longer ones."""
+    import itertools
+
+    letters = [(v, sl) for v in VALUES for sl in SLOPES]
+    out = []
+    for L in range(1, exhaustive_len + 1):
+        for sc in itertools.product(letters, repeat=L):
+            for ml in maxls_set:
+                out.append({"family": "scripted", "n": 2, "pseed": 0, "script": [list(l) for l in sc],
+                            "nobox": bool(len(out) % 2),
+                            "kwargs": {"maxiter": 3, "maxfun": int(rng.choice([2, 3, 4, 6, 50])), "maxls": int(ml),
+                                       "maxcor": 2, "ftol": float(rng.choice([0.0, 1e-3]))}})
+    for _ in range(n_random):
+        L = int(rng.integers(3, 9))
+        sc = [list(letters[int(rng.integers(len(letters)))]) for _ in range(L)]
+        out.append({"family": "scripted", "n": int(rng.integers(1, 4)), "pseed": 0, "script": sc, "nobox": bool(rng.random() < 0.5),
+                    "kwargs": {"maxiter": int(rng.integers(1, 6)), "maxfun": int(rng.choice([2, 3, 5, 8, 50])),
+                               "maxls": int(rng.choice([1, 2, 3, 4, 5, 20])), "maxcor": int(rng.choice([1, 3])),
+                               "ftol": float(rng.choice([0.0, 1e-3]))}})
+    return out
+
 def rand_spec(rng, families, *, nmax=6, small_budgets=True, jacs=("callable",), allow_cb=True,
               allow_target=True, allow_chain=False, allow_gcall=True):
     fam = families[int(rng.integers(len(families)))]
